@@ -129,6 +129,8 @@ pub mod query;
 pub mod registry;
 pub mod resource;
 pub mod system;
+#[cfg(brood_verif)]
+pub mod verif;
 pub mod world;
 
 #[doc(hidden)]
